@@ -47,7 +47,7 @@ Definition cres_eqb (a b : cres) : bool :=
 
 Record case := {
   vttl : N * N;              (* volume TTL (Count, Unit) *)
-  osz : N;                   (* types.OffsetSize of the build *)
+  osz : N;                   (* types.OffsetSize of the build (informative: the model no longer depends on it) *)
   algo : alg;
   now_s : N;                 (* clock (s) read just before Compact/Compact2 *)
   now_r : N;                 (* clock (ns) read just before the final reads *)
@@ -71,7 +71,7 @@ Definition opt_eqb (a b : option (Z * view)) : bool :=
   end.
 
 Definition check (c : case) : outcome :=
-  let g := {| g_vttl := vttl c; g_osz := osz c |} in
+  let g := {| g_vttl := vttl c |} in
   let ord := default_ord g (h1 c) (h2 c) in
   let F := compacted_files g (algo c) (now_s c) ord (h1 c) (h2 c) in
   let m := commit F in
@@ -92,7 +92,6 @@ Definition check (c : case) : outcome :=
      o_trig :=
        if has_empty (h1 c ++ h2 c) then Some 0
        else if negb (ttl_consistent (vttl c) (now_s c) (now_r c) (h1 c)) then Some 1
-       else if (osz c =? 5) && negb (within_32g g (algo c) (now_s c) ord (h1 c) (h2 c)) then Some 3
        else if negb (reload_noop g (algo c) (now_s c) ord (h1 c) (h2 c)) then Some 2
        else None;
      o_nontrivial :=
